@@ -249,3 +249,15 @@ func verifLemmaPathItemRoundTrip(data []byte) []byte {
 	}
 	return out
 }
+
+func verifLemmaPathsRoundTrip(data []byte) []byte {
+	var v Paths
+	if err := v.UnmarshalJSON(data); err != nil {
+		return nil
+	}
+	out, err := v.MarshalJSON()
+	if err != nil {
+		return nil
+	}
+	return out
+}
